@@ -24,6 +24,9 @@ type c16Case struct {
 	// Sibling: a second clone of the original is alive at the same time; it receives a NOP and then every tail call
 	// right after the kept clone received it (one byte further on), and is discarded (a dry run of a variant)
 	Sibling bool `json:"sibling,omitempty"`
+	// InPlace: the clone's target is the free part of the original's own backing array, starting exactly at the original's
+	// write position (the zero-copy idiom a.Clone(buf[a.Len():])); it may reach beyond the original's window
+	InPlace bool `json:"in_place,omitempty"`
 }
 
 type emObs struct {
@@ -112,7 +115,7 @@ func c16Check(c c16Case) error {
 				return false
 			}
 		}
-		for i := 4 + acap; i < len(abig); i++ {
+		for i := 4 + acap; i < len(abig) && !c.InPlace; i++ {
 			if abig[i] != 0xC3 {
 				return false
 			}
@@ -123,7 +126,12 @@ func c16Check(c c16Case) error {
 		asmcat.ApplyReal(a, o)
 	}
 	atSplit := observe(a)
-	cl := a.Clone(make([]byte, needOf(tail)+16))
+	cloneTarget := make([]byte, needOf(tail)+16)
+	inPlace := c.InPlace && 4+a.Len()+tailBytes <= len(abig)
+	if inPlace {
+		cloneTarget = abig[4+a.Len():]
+	}
+	cl := a.Clone(cloneTarget)
 	var sib *asm.Emitter
 	if c.Sibling {
 		sib = a.Clone(make([]byte, needOf(tail)+17))
@@ -168,6 +176,13 @@ func c16Check(c c16Case) error {
 	if df := observe(d).diff(observe(a)); df != "" {
 		return fmt.Errorf("after Clone+Append the emitter differs from one that received the whole sequence (split at %d of %d): %s", c.Split, len(c.Ops), df)
 	}
+	if !inPlace {
+		// the appended clone is used further (it has its own buffer): no call on the original, nothing may change there
+		_ = rig.Safe(func() error { cl.Comment("variant"); cl.EmitBytes([]byte{1, 2, 3}); return nil })
+		if df := observe(d).diff(observe(a)); df != "" {
+			return fmt.Errorf("the clone was used again after it had been appended and the original changed: %s", df)
+		}
+	}
 	// the joined emitter keeps behaving like the direct one
 	for i, o := range c.Coda {
 		r1, p1 := asmcat.ApplyReal(d, o)
@@ -175,6 +190,10 @@ func c16Check(c c16Case) error {
 		if (p1 == nil) != (p2 == nil) || r1 != r2 {
 			return fmt.Errorf("after Append, call %d %v behaves differently: direct (%d, %v), clone+append (%d, %v)", i, o, r1, p1, r2, p2)
 		}
+	}
+	if !inPlace {
+		// ... and once more after the original's own later calls
+		_ = rig.Safe(func() error { cl.Comment("variant"); cl.EmitBytes([]byte{4, 5}); return nil })
 	}
 	if len(c.Coda) > 0 {
 		if df := observe(d).diff(observe(a)); df != "" {
@@ -218,11 +237,11 @@ func c16Check(c c16Case) error {
 // c16DryRun: the same split with emitters that have no target buffer (measuring mode): after Append the
 // program counter, flags and labels must equal those of a direct dry-run emitter, and keep doing so.
 func c16DryRun(c c16Case) error {
-	d := asm.NewEmitter(nil, false)
+	d := asm.NewEmitter(nil, c.Listing)
 	for _, o := range c.Ops {
 		asmcat.ApplyReal(d, o)
 	}
-	a := asm.NewEmitter(nil, false)
+	a := asm.NewEmitter(nil, c.Listing)
 	for _, o := range c.Ops[:c.Split] {
 		asmcat.ApplyReal(a, o)
 	}
@@ -248,6 +267,12 @@ func c16DryRun(c c16Case) error {
 	s1, s2 := snapOf(d), snapOf(a)
 	if df := s1.diff(s2, true); df != "" {
 		return fmt.Errorf("dry-run emitters (no target buffer): after Clone+Append the emitter differs from a direct one (split at %d of %d): %s", c.Split, len(c.Ops), df)
+	}
+	if c.Listing {
+		// listings of emitters without a buffer: whatever the direct one produces (text or failure), the joined one produces too
+		if df := observe(d).diff(observe(a)); df != "" {
+			return fmt.Errorf("dry-run emitters with listing generation on: after Clone+Append %s", df)
+		}
 	}
 	return nil
 }
@@ -294,6 +319,10 @@ func TestC16(t *testing.T) {
 				if rapid.Bool().Draw(t, "with-coda") {
 					c.Coda = []asmcat.Op{{Kind: "comment", Text: "after append"}, {Kind: "ins", Method: "NOP"}, {Kind: "label", Label: "lbl"}, {Kind: "ins", Method: "BRA", Label: labelPoolName(rapid.IntRange(0, 7).Draw(t, "coda-label"))}}
 					c.Coda = c.Coda[:rapid.IntRange(1, 4).Draw(t, "coda-len")]
+				}
+				if rapid.IntRange(0, 3).Draw(t, "in-place") == 0 {
+					c.InPlace = true
+					ev.Class("clone-target-is-the-free-part-of-the-original's-own-array")
 				}
 				if rapid.IntRange(0, 2).Draw(t, "sibling") == 0 {
 					c.Sibling = true
